@@ -34,6 +34,8 @@ for pid in props:
         "technique": c["technique"],
     })
 na = [{"property_id": p, "reason": src["not_applicable"].get(p, "check not built yet")} for p in props if p not in src["checks"]]
+for e in src["engines"]:
+    e["serves_properties"] = [c["property_id"] for c in checks]
 m = {
     "version": 1,
     "setup_cmd": src["setup_cmd"],
